@@ -7,7 +7,7 @@ HERE = os.path.dirname(os.path.dirname(os.path.abspath(__file__)))
 
 NOTE = ('trusted base: the simulator (vsim/core.py scheduler, pipes, tape replay), the world '
         'generator, the unittest model (vsim/world.py predict_test, validated against every run by '
-        'C05) and the reference selection model; the simulator runs on CPython 3.12.1 (C05/C11 add directed real-process runs under 3.9/3.10/3.11/3.13); children are forked from a '
+        'C05) and the reference selection model; the simulator runs on CPython 3.12.1 (C05/C11/C13 add directed real-process runs under 3.9/3.10/3.11/3.13); children are forked from a '
         'warmed interpreter rather than exec()ed; sampling, not enumeration')
 
 CHECKS = {
@@ -21,7 +21,7 @@ CHECKS = {
     'C10': ('ordersim', '5.10', 'the nondeterminism sources the statement names (discovery order, layer-object creation order/addresses, --layer option order, PYTHONHASHSEED lanes) are permuted by the simulator around the real Runner(found_suites=...); order invariants on the simulated runs; world specs with children that die silently and a worker thread that cannot be started'),
     'C11': ('worldsim', '5.11', 'simulated clocks with parent/child skew decide the default seed; order equality across list/sequential/-j N/resumed/--layer executions and reproduction from the reported seed; foreign draws from the global random generator injected between the lines of the shuffle; directed specs re-run as real processes (sequential, --list-tests, -j 2) under CPython 3.9/3.10/3.11/3.13 and compared with the simulated 3.12 order'),
     'C12': ('worldsim', '5.12', 'printed counts/lists vs. trace ground truth, and sequential vs. simulated -j N / resumed executions of the same spec; ^C in a half-run layer, undecodable child output, header-like noise on a child\'s real stderr'),
-    'C13': ('worldsim', '5.13', 'token attribution over the merged stdout/stderr log and stream identity monitored inside hooks, over seeded outcome histories incl. tests that replace, close, stash and re-install the streams, nested in-process runs, and output written by a thread that existed before the test'),
+    'C13': ('worldsim', '5.13', 'token attribution over the merged stdout/stderr log and stream identity monitored inside hooks, over seeded outcome histories incl. tests that replace, close, stash and re-install the streams, nested in-process runs, output written by a thread that existed before the test, and directed plain --buffer histories re-run as real processes under CPython 3.9/3.10/3.11/3.13'),
     'C14': ('fssim', '5.14', 'find.os seam returns every directory in seeded enumeration orders over generated tmpfs trees; a directory that vanishes between the listing of its parent and the walk entering it; import-event history and listing order vs. reference discovery model'),
     'C15': ('fssim', '5.15', 'find.os seam (enumeration order, unlink faults: concurrent removal / permission, a concurrent writer creating source files mid-scan; after a failed unlink a run that goes on must have removed every other orphan; -s narrowing discovery) around the real --list-tests run on generated tmpfs trees; before/after disk snapshot vs. orphan model'),
     'C16': ('worldsim', '5.16', '"nothing starts after the first bad outcome" automaton per pid over seeded simulated -x runs (sequential, resumed with late child reports or a failing read of the child\'s stderr, failing tear-downs, --buffer)'),
